@@ -48,6 +48,8 @@ func main() {
 	os.Exit(2)
 }
 
+var matrixVerif = "/verif"
+
 type checkFunc func(p *Program, r *Report)
 
 var checks = map[string]checkFunc{}
@@ -398,7 +400,9 @@ func runVariant(prop, repo string, f checkFunc, edit func(tmp string) string) ma
 func cmdMatrix(args []string) int {
 	fs := flag.NewFlagSet("matrix", flag.ExitOnError)
 	repo := fs.String("repo", "/repo", "repository root")
+	verif := fs.String("verif", "/verif", "verif root (known findings)")
 	fs.Parse(args)
+	matrixVerif = *verif
 	abs, _ := filepath.Abs(*repo)
 	p := loadProgram(abs, "", nil)
 	var props []string
@@ -421,7 +425,16 @@ func cmdMatrix(args []string) int {
 			checks[prop](p, r)
 		}()
 		rs := map[string]bool{}
-		for _, v := range r.Viol {
+		known := map[string]bool{}
+		for _, kf := range loadKnown(matrixVerif).Findings {
+			if kf.Property == prop {
+				known[kf.Key] = true
+			}
+		}
+		for k, v := range r.Viol {
+			if known[k] {
+				continue // a recorded finding is reported as KNOWN-FINDING by check, not as an alarm
+			}
 			rs[v.Rule] = true
 		}
 		if len(r.Floors) > 0 {
